@@ -208,7 +208,72 @@ def check_C06(tier, replay=None):
                   ["concretiser of abstract integer points and strings (harness/src/facets.rs)", "TLC", "helpers_content.rs is compiled into the harness unmodified by #[path]"])
 
 
-CHECKS = {"C11": check_C11, "C06": check_C06}
+# ------------------------------------------------------------------------- C15
+
+CORPUS = ["aacc/CustomerWS.wsdl", "aic/agent_wsdl.xml", "aic/version_wsdl.xml", "aic/workflow_wsdl.xml", "blz_service/blz.wsdl",
+          "broadband_forum/cwmp-1-2.xsd", "hello/hello.wsdl", "number_services/number_services.wsdl", "simple/simple.xsd",
+          "smgr/userimport.xsd", "temp_converter/tempconverter.wsdl", "weather/weather.wsdl", "exchange/services.wsdl"]
+
+
+def corpus_cases(prop, drv, extra=None):
+    cs = []
+    for rel in CORPUS:
+        p = os.path.join(z.REPO, "resources", rel)
+        if os.path.exists(p):
+            c = {"prop": prop, "drv": drv, "path": p, "label": "corpus:" + rel, "files": [], "start": ""}
+            c.update(extra or {})
+            cs.append(c)
+    return cs
+
+
+def check_C15(tier, replay=None):
+    R = Result("C15", tier)
+    dev = [d for d in z.dev_set() if d in ("D26",)]
+    devs = tla_set(dev)
+    z.build_harness()
+    consts = {"MaxChunks": "3", "MaxLen": "2"} if tier == "quick" else {"MaxChunks": "4", "MaxLen": "3"}
+    consts["Dev"] = devs
+    c = cfg("MCSpec", consts, invariants=["NeverPanic", "NoFalseSuccess", "FaultReported", "ShortWritesComplete", "NothingAfterFault", "PredictAgrees"],
+            properties=["Terminates"])
+    res, vocab, cases, _ = mc_run(R, "MC_C15", c, "MC_C15_" + tier, workers=8)
+    log(f"MC_C15: {res['distinct']} distinct states, {res['wall']:.1f}s")
+    stride = 997 if tier == "quick" else 1
+    cases += corpus_cases("C15", "sink", {"stride": stride})
+    for i, cs in enumerate(cases):
+        cs["id"] = i + 1
+        cs["seed"] = z.seed()
+        cs["stride"] = stride
+    R.cases, R.vocab = cases, vocab
+    traces, crashed = z.run_harness(vocab, cases, "C15", shards=len(cases), per_case_timeout=3600)
+    tcfg = cfg("TraceSpec", {"Dev": devs}, post="Accepted")
+    viol, known, stale, drift = trace_run(R, "Trace_C15", tcfg, traces, "T_C15")
+    R.viol, R.drift = viol, len(drift)
+    runs = 0
+    docs = []
+    for t in traces:
+        for line in open(t):
+            e = json.loads(line)
+            if e["ev"] in ("fault_run", "short_run"):
+                runs += 1
+            if e["ev"] == "plan":
+                docs.append({"calls": e["calls"], "bytes": e["bytes"]})
+            if e["ev"] == "harness_error":
+                raise z.ToolError("harness: " + e["msg"])
+    R.extra["fault_and_short_runs"] = runs
+    R.extra["documents"] = docs
+    R.samples = [{"label": c.get("label"), "start": c.get("start") or c.get("path")} for c in cases[:4]]
+    cov_rule = ("documents = 3 TLC-printed schema sets that exercise every emitter + the repository's real schemas; for each document a write failure is injected at every write-call index (every 997th for documents with more than 2000 calls in the quick tier) x error kind class (6 ErrorKind values, Interrupted, Ok(0)) plus indices beyond the end, and 5 short-write patterns; distinct by (document, index, kind)")
+    rc = finish(R, "fault_enumeration", cov_rule,
+                ["instrumented io::Write sinks of the harness (harness/src/sink.rs)", "TLC", "std::io::Write::write_all as modelled in spec/Sink.tla"])
+    # evaluations = runs actually performed
+    ev = json.load(open(os.path.join(z.VERIF, "evidence", "C15.json")))
+    ev["coverage"]["evaluations"] = runs
+    ev["coverage"]["distinct_nontrivial"] = runs
+    json.dump(ev, open(os.path.join(z.VERIF, "evidence", "C15.json"), "w"), indent=1)
+    return rc
+
+
+CHECKS = {"C11": check_C11, "C06": check_C06, "C15": check_C15}
 
 
 def main(argv):
